@@ -110,6 +110,7 @@ def gen_case(g, tier, idx):
             xs = g.vec(n, -2, 2)
             st["y"] = [sum(H[i][j] * xs[j] for j in range(n)) + r.uniform(-0.5, 0.5) for i in range(m)]
             st["valid"] = not (r.random() < 0.18) or (style == "samebelief" and s == 0)
+            st["move"] = (s > 0 and "C" in kinds[:s] and r.random() < 0.15)
             if shipped_lik:
                 st["lik"] = {"kind": 2, "scale": lik_scale}
             elif r.random() < 0.5:
@@ -151,6 +152,7 @@ def harness_line(M):
     for st in M["steps"]:
         t += [st["kind"], "1" if st["skip"] else "0"]
         if st["kind"] == "C":
+            t += ["1" if st.get("move") else "0"]
             t += [hexd(v) for v in st["y"]] + ["1" if st["valid"] else "0"]
             lk = st["lik"]
             if lk["kind"] == 0:
@@ -514,6 +516,12 @@ def analyse(M, Hh, acc):
                        or cur.covs[i * n * n:(i + 1) * n * n] != hs["dcovs"][i * n * n:(i + 1) * n * n]]
                 prop.append(("belief-not-wrapped-step", "%s: beliefs of particles %s differ from the wrapped %s step run directly on the same beliefs"
                              % (tag, bad, "prediction" if st["kind"] == "P" else "correction")))
+        if any(not math.isfinite(unhex(a)) for a in hs["dmeans"] + hs["dcovs"]):
+            acc.hit("note:wrapped-step-returned-non-finite-beliefs (case not decided further)")
+            return None, None, None
+        if any(not math.isfinite(unhex(a)) for a in cur.states + cur.weights):
+            prop.append(("non-finite-output", "%s: non-finite particle position or log-weight although the beliefs are finite" % tag))
+            return None, None, None
         if st["kind"] == "P":
             acc.hit("pred-wrapped:%s" % ["KF", "UKF"][M["pred_kind"]])
             # ---- clause: prediction leaves positions and weights untouched
@@ -526,6 +534,8 @@ def analyse(M, Hh, acc):
         acc.hit("corr-wrapped:%s" % ["KF", "UKF", "SUKF"][M["corr_kind"]])
         acc.hit("lik-kind:%d" % st["lik"]["kind"])
         acc.hit("trans-kind:%d" % tr["kind"])
+        if st.get("move"):
+            acc.hit("correction-object-moved-mid-history")
         if hs["calls"] != 1:
             acc.hit("note:likelihood-model-called-%d-times" % hs["calls"])
         if hs["gvalid"] != st["valid"] or (st["valid"] and hs.get("valid") and hs["gl"] != hs["l"]):
@@ -737,6 +747,11 @@ def compare_model(M, Hh, model_sets, tols, acc):
 
 def run(ctx):
     ctx.proof_stage()
+    if not ctx.quick():
+        bad = vlib.leanchecker(["BFL.Model.GPF", "BFL.Proofs.GPF", "BFL.Props.C08"])
+        ctx.coverage["leanchecker"] = "failed: %s" % bad if bad else "BFL.Model.GPF, BFL.Proofs.GPF, BFL.Props.C08 re-checked"
+        if bad:
+            ctx.violation("leanchecker", "leanchecker rejects compiled modules: %s" % bad, {"modules": bad}, no_input=True)
     binary = vlib.build_harness("h_gpf")
     g = ctx.gen("gpf")
     N = ctx.n(140, 2500)
@@ -800,14 +815,23 @@ def run(ctx):
         (key, what), line, h, M, cnt = first_corr
         ctx.violation("correspondence:" + key, "model gpfRun and implementation disagree (%d findings), no property predicate failed: %s" % (n_corr, what),
                       {"harness": "h_gpf", "correspondence": "gpfRun vs GPFPrediction/GPFCorrection", "input_line": line, "observed": h[:3000], "case": M}, no_input=True)
-    nontrivial = sum(1 for (l, M) in cases if M["n"] * M["k"] > 1 and len(M["steps"]) >= 2)
+    nontrivial = len({l for (l, M) in cases if M["n"] * M["k"] > 1 and len(M["steps"]) >= 2})
+
+    def describe(M):
+        return {"style": M["style"], "n": M["n"], "k": M["k"], "m": M["m"], "seed": M["seed"],
+                "wrapped_prediction": ["KF", "UKF"][M["pred_kind"]], "wrapped_correction": ["KF", "UKF", "SUKF"][M["corr_kind"]],
+                "transition": "WhiteNoiseAcceleration" if M["trans"]["kind"] == 1 else "harness-defined",
+                "events": ["%s%s%s%s" % (st["kind"], ",skip" if st["skip"] else "", ",invalid-likelihood" if st["kind"] == "C" and not st["valid"] else "",
+                                         ",lik-kind-%d" % st["lik"]["kind"] if st["kind"] == "C" else "") for st in M["steps"]]}
     ctx.coverage.update({
-        "evaluations": len(cases), "distinct_nontrivial": min(len(set(lines)), nontrivial),
+        "evaluations": len(cases), "distinct_nontrivial": nontrivial,
         "rule": "random GPF histories: 3..6 prediction/correction events (1..4 for the tiny style), n in 1..4 (6 for WNA, thorough), k in 1..8, m in 1..3, "
                 "wrapped KF/UKF prediction and KF/UKF/SUKF correction, scripted / position-dependent / shipped Gaussian likelihood, harness-defined / "
                 "WhiteNoiseAcceleration transition density, distinct beliefs per particle, invalid likelihood at scripted steps, wrapped-step skip flags; "
                 "non-trivial = n*k > 1 and at least 2 events; distinct = distinct input lines",
-        "samples": [lines[0][:400], lines[-1][:400]],
+        "samples": [{"case": describe(cases[0][1]), "harness_line": lines[0][:300]},
+                    {"case": describe(cases[len(cases) // 2][1]), "harness_line": lines[len(cases) // 2][:300]},
+                    {"case": describe(cases[-1][1]), "harness_line": lines[-1][:300]}],
         "histogram": dict(sorted(acc.hist.items())), "numeric": acc.stats,
         "traces_validated_against_impl": len(dlines),
         "model_vs_impl_disagreements": n_corr, "property_failures_on_impl": n_prop,
